@@ -214,6 +214,14 @@ def run(chk, facts, tier):
                 why = 'interval return must be current_advertising_interval() + delta_time::msec(adv_perturbation_) under first_channel_selected()'
         chk.instance('perturbation-range', fn, 'next_adv_event returns', ok, '' if ok else why, key='next_adv_event')
 
+    # an advertising event starts with the first enabled channel: that is what "first channel selected" has to say (the interval / perturbation is applied only there)
+    for cls, first in (('variable_advertising_channel_map', 'first_channel_index'), ('all_advertising_channel_map', 'first_advertising_channel')):
+        for fn in variants(facts, 'bluetoe::link_layer::%s::first_channel_selected' % cls, chk):
+            rs = fn.returns()
+            b = as_binop(ret_value(rs[0])) if len(rs) == 1 else None
+            ok = b is not None and b[0] == '==' and any(is_name(x, 'current_channel_index_') for x in b[1:]) and any((strip_casts(x).is_call(first) and not strip_casts(x).args()) or strip_casts(x).n == first for x in b[1:])
+            chk.instance('first-index-loop', fn, '%s::first_channel_selected() is current_channel_index_ == %s' % (cls, first), ok,
+                         '' if ok else 'the start of an advertising event is not recognised by the first enabled channel: with a non contiguous map the event is split and the interval is inserted between its channels', key='selected ' + cls)
     # --- start / stop / count
     IMPL = 'bluetoe::link_layer::no_auto_start_advertising::impl::'
     for name in ('begin_of_advertising_events', 'continued_advertising_events'):
